@@ -35,16 +35,37 @@ class ScriptedGenerator(gens.HarnessGenerator):
         self.sh.script = v
 
     def _scripted(self, size):
-        """the next scripted vector if the request is for exactly that many deviates; a request for another amount (deviates drawn
-        ahead in blocks ...) is served with ordinary deviates and leaves the script untouched - the probe then reports NotScriptable"""
-        if not self.sh.script:
+        """deviates from the pending scripted vector: all of it for a request of exactly its size, or the next n of it for a smaller
+        request (a code that asks for its innovation in pieces - or for fewer deviates than the row has pixels - consumes it
+        progressively; what it never asks for it never gets).  A request for MORE than is pending (deviates drawn ahead in
+        blocks ...) is served with ordinary deviates and leaves the script untouched - the probe then reports NotScriptable."""
+        sh = self.sh
+        if not sh.script:
             return None
         n = 1 if size is None else int(np.prod(size))
-        v = np.asarray(self.sh.script[0], float)
-        if v.size != n:
+        v = np.ravel(np.asarray(sh.script[0], float))
+        off = getattr(sh, "offset", 0)
+        if n > v.size - off or n == 0:
             return None
-        self.sh.script.pop(0)
-        return v.reshape(size) if isinstance(size, tuple) and len(size) > 1 else v
+        out = v[off:off + n]
+        sh.offset = off + n
+        if sh.offset == v.size:
+            sh.script.pop(0)
+            sh.offset = 0
+        return out.reshape(size) if isinstance(size, tuple) and len(size) > 1 else (out if size is not None else float(out[0]))
+
+    def finish_item(self):
+        """after the call under test: how much of the scripted vector was consumed - "all", "part" (the rest is dropped) or "none" """
+        sh = self.sh
+        if not sh.script:
+            return "all"
+        if getattr(sh, "offset", 0) > 0:
+            sh.script.pop(0)
+            sh.offset = 0
+            sh.script.clear()
+            return "part"
+        sh.script.clear()
+        return "none"
 
     def normal(self, loc=0.0, scale=1.0, size=None):
         v = self._scripted(size)
@@ -86,8 +107,7 @@ def probe(obj, gen, S, b):
     obj._scrn = np.array(S, dtype=float, copy=True)
     gen.script.append(b)
     out = obj.add_row()
-    if gen.script:
-        gen.script.clear()
+    if gen.finish_item() == "none":
         raise NotScriptable()
     row = np.asarray(obj._scrn)[0].copy()
     return row, np.asarray(out)
@@ -261,7 +281,7 @@ def vk_stability(ips, n, ncol, params, seed=5):
         obj._scrn = S.copy()
         gen.script.append(np.zeros(n))
         obj.add_row()
-        if gen.script:
+        if gen.finish_item() != "all":
             return None, None            # not scriptable (see NotScriptable): the caller lists it as unrunnable
         T[:, s] = np.asarray(obj._scrn)[:ncol].ravel()
     for k in range(n):
@@ -270,6 +290,7 @@ def vk_stability(ips, n, ncol, params, seed=5):
         obj._scrn = np.zeros((n, n))
         gen.script.append(e)
         obj.add_row()
+        gen.finish_item()
         Gm[:, k] = np.asarray(obj._scrn)[:ncol].ravel()
     rho = float(np.abs(np.linalg.eigvals(T)).max())
     rr, cc = np.divmod(np.arange(nz), n)
